@@ -22,7 +22,8 @@ HasBit(x, b) == (x \div b) % 2 = 1
 
 \* what the completion of an EXECUTED submission s must carry, given the record d of the direct call
 Expected(s, d) ==
-    IF s.op = "timeout" THEN (IF d.res = 0 THEN ETIME ELSE d.res)     \* nanosleep returned <-> timer fired
+    IF s.op = "timeout" THEN (IF d.count_reached THEN 0                \* the completion count was reached first
+                              ELSE IF d.res = 0 THEN ETIME ELSE d.res)  \* (clock_)nanosleep returned <-> timer fired
     ELSE IF s.op = "poll" THEN (IF d.res < 0 THEN d.res
                                 ELSE IF HasBit(d.revents, 32) THEN EBADF   \* POLLNVAL <-> EBADF
                                 ELSE d.revents)
@@ -61,6 +62,18 @@ Judge(b) ==
          THEN "linked_operations_completed_out_of_order"
     ELSE IF \E k \in 1..n : ~b.payload_same[k] THEN "data_differs_from_direct_call"
     ELSE IF ~b.side_same THEN "side_effects_differ_from_direct_calls"
+    ELSE ""
+
+\* set-up: what the wrapper extracted about the rings against the kernel's answer to an identical independent
+\* io_uring_setup call, and against the requested size (rings are rounded up to a power of two, the completion
+\* ring has twice the entries, masks are entries - 1)
+RECURSIVE NextPow2From(_, _)
+NextPow2From(p, n) == IF p >= n THEN p ELSE NextPow2From(2 * p, n)
+JudgeGeometry(g) ==
+    IF ~g.twin_ok THEN ""
+    ELSE IF g.k_sq_entries # NextPow2From(1, g.requested) \/ g.k_cq_entries # 2 * g.k_sq_entries THEN "harness_geometry_expectation"
+    ELSE IF g.w_sq_entries # g.k_sq_entries \/ g.w_cq_entries # g.k_cq_entries THEN "ring_entries_differ_from_kernel"
+    ELSE IF g.w_sq_mask # g.k_sq_entries - 1 \/ g.w_cq_mask # g.k_cq_entries - 1 THEN "ring_mask_differs_from_kernel"
     ELSE ""
 
 JudgeClauses == {"wrapper_panicked", "slot_refused_on_drained_ring", "enter_failed",
@@ -132,7 +145,7 @@ Record ==
     [panic |-> FALSE, enter |-> N, side_same |-> TRUE,
      subs |-> [k \in Ops |-> [u |-> 100 + k, op |-> "statx", link |-> link[k], req |-> 0, got_slot |-> TRUE]],
      cqes |-> [i \in 1..Len(reaped) |-> [u |-> 100 + reaped[i], res |-> ResOf(out[reaped[i]])]],
-     direct |-> [k \in Ops |-> [u |-> 100 + k, ran |-> DirectRan(k),
+     direct |-> [k \in Ops |-> [u |-> 100 + k, ran |-> DirectRan(k), count_reached |-> FALSE,
                                 res |-> IF DirectRan(k) THEN ResOf(out[k]) ELSE ECANCELED]],
      payload_same |-> [k \in Ops |-> TRUE]]
 
